@@ -532,24 +532,29 @@ def c27Mode? : SExp → Option Counting.Mode
   | .sym "clip" => some .clip
   | _ => none
 
-/-- `(aligned_coarsen ((chunks…)…) m)` ↦ one `(ok (…))` | `(raised)` per chunk tuple -/
+/-- `(aligned_coarsen ((chunks…)…) m ((order…)…))` ↦ one `(ok (…))` | `(raised)` per chunk tuple; `order` is the
+    modification order NumPy's argsort produced for that tuple (`()` = use the model's stable argsort) -/
 def hAlignedCoarsen : Handler := handler fun args =>
   match args with
-  | [css, m] => do
+  | [css, m, orders] => do
     let css ← css.toNatss?
     let m ← m.toNat?
-    pure (.list (css.map (fun cs => c27OkNats (alignedCoarsenChunks cs m))))
+    let orders ← orders.toNatss?
+    pure (.list ((css.zip orders).map (fun (cs, o) =>
+      c27OkNats (if o.isEmpty then alignedCoarsenChunks cs m else alignedCoarsenChunksWith o cs m))))
   | _ => none
 
-/-- `(da_coarsen trim d (chunks…) (xs…))` ↦ `(ok ((block…)…) (declared chunks…) (coarsened whole…))` | `(raised)` -/
+/-- `(da_coarsen trim d (chunks…) (xs…) (order…))` ↦ `(ok ((block…)…) (declared chunks…) (coarsened whole…))` | `(raised)` -/
 def hDaCoarsen : Handler := handler fun args =>
   match args with
-  | [t, d, cs, xs] => do
+  | [t, d, cs, xs, o] => do
     let t ← t.toBool?
     let d ← d.toNat?
     let cs ← cs.toNats?
     let xs ← xs.toNats?
-    match daCoarsen Chunks.sum t d cs xs, alignedCoarsenChunks cs d with
+    let o ← o.toNats?
+    let o := if o.isEmpty then modificationOrder d cs else o
+    match daCoarsenWith o Chunks.sum t d cs xs, alignedCoarsenChunksWith o cs d with
     | some blocks, some al => pure (.list [.sym "ok", SExp.ofNatss blocks, SExp.ofNats (coarsenDeclaredChunks d al),
         SExp.ofNats (coarsenBlock Chunks.sum d xs)])
     | _, _ => pure c27Raised
